@@ -3,7 +3,9 @@
    Model: Conc/Shutdown.v — accept loop, one handler per connection (ClientsWg.Add inside the
    handler), the closer (Server.Close), clients as environment; [final vers sched] is the shared
    state after running the schedule [sched] (any list of thread ids) from the initial state with
-   one connection per entry of [vers] (protocol versions). *)
+   one connection per entry of [vers]: its protocol version and the write oracle (whether writing
+   the shutdown DISCONNECT to it fails, and whether that is an I/O error rather than the packet
+   size) — the theorems hold for every assignment of write outcomes. *)
 From MV Require Import Base.Val Base.Sched Conc.Shutdown Conc.ShutdownConn Conc.ShutdownProofs Findings.FixedC36.
 Open Scope Z_scope.
 
@@ -16,9 +18,13 @@ Open Scope Z_scope.
    KF_C36_silent_connection): a connection whose handler has run ClientsWg.Add and waits in
    readConnectionPacket for a CONNECT that the client has not sent is not in Clients, so Close does
    not close it and blocks in ClientsWg.Wait until that client speaks or goes away.  Outside
-   exactly that predicate (evaluated on the final state) the statement is proved. *)
-Theorem C36_all_closed_modulo_findings : forall (vers : list N) (sched : list tid),
+   exactly that predicate (evaluated on the final state) the statement is proved.
+   Second window (KF_C36_disconnect_too_large): the 27-byte shutdown DISCONNECT (reason string
+   included) exceeds the Maximum Packet Size of an MQTT 5 client; the write is refused and the client
+   is closed without a DISCONNECT.  A write that fails because of an I/O error owes nothing. *)
+Theorem C36_all_closed_modulo_findings : forall (vers : list cspec) (sched : list tid),
   KF_C36_silent_connection vers sched = false ->
+  KF_C36_disconnect_too_large vers sched = false ->
   close_called (final vers sched) = true -> quiescent (final vers sched) = true ->
   shutdown_complete (final vers sched) = true.
 Proof. exact shutdown_all_closed. Qed.
@@ -30,24 +36,52 @@ Definition silent_client : list tid := [1; 2; 1; 1; 1; 3; 0; 0; 0; 0; 1; 0; 0]%n
 Theorem C36_all_closed_refuted : exists vers sched,
   close_called (final vers sched) = true /\ quiescent (final vers sched) = true /\
   shutdown_complete (final vers sched) = false /\ KF_C36_silent_connection vers sched = true.
-Proof. exists [5%N], silent_client. vm_compute. repeat split. Qed.
+Proof. exists [v5], silent_client. vm_compute. repeat split. Qed.
+
+(* refutation 2: a connected MQTT 5 client with Maximum Packet Size 25 (write oracle: fails, not an
+   I/O error): Close completes, the client is closed, but was sent no DISCONNECT *)
+Definition small_client : cspec := mkCS 5 true false.
+Definition orderly1 : list tid := [1; 2; 2; 1; 1; 1; 3; 3; 3; 3; 0; 0; 0; 0; 1; 0; 3; 0]%nat.
+
+Theorem C36_all_closed_refuted_too_large :
+  close_called (final [small_client] orderly1) = true /\ quiescent (final [small_client] orderly1) = true /\
+  returned (final [small_client] orderly1) = true /\
+  shutdown_complete (final [small_client] orderly1) = false /\
+  KF_C36_disconnect_too_large [small_client] orderly1 = true /\ KF_C36_silent_connection [small_client] orderly1 = false.
+Proof. vm_compute. repeat split. Qed.
+
+(* the same schedule with an I/O error instead (nothing owed), and with a client that can take the
+   packet: complete *)
+Example C36_write_error_excused :
+  shutdown_complete (final [mkCS 5 true true] orderly1) = true /\
+  shutdown_complete (final [v5] orderly1) = true.
+Proof. vm_compute. repeat split. Qed.
+
+(* DisconnectClient must stop the client also when the write fails: with the variant that returns
+   early instead (EarlyReturn), the same schedule leaves the client connected and Close blocked *)
+Example C36_always_stop_matters :
+  let s := shared (run (exec_gen EarlyReturn) orderly1 (shutdown_threads [small_client])) in
+  close_called s = true /\ quiescent s = true /\ returned s = false /\ shutdown_complete s = false /\
+  existsb silent (s_conns s) = false /\ existsb undelivered (s_conns s) = false /\
+  map (fun c => (c_phase c, c_closed c)) (s_conns s) = [(PServing, false)].
+Proof. vm_compute. repeat split. Qed.
 
 (* ... and as soon as that client sends its CONNECT it is refused, the handler returns, Close returns *)
 Example C36_silent_client_speaks :
-  let s := final [5%N] (silent_client ++ [2; 3; 3; 3; 0]%nat) in
+  let s := final [v5] (silent_client ++ [2; 3; 3; 3; 0]%nat) in
   quiescent s = true /\ shutdown_complete s = true /\
   map (fun c => (c_phase c, c_connack c, c_closed c)) (s_conns s) = [(PDone, false, true)].
 Proof. vm_compute. repeat split. Qed.
 
 (* The listener stops accepting: after Close has returned a new connection attempt is refused, and
    from the moment Close has started the accept loop hands no connection to a handler any more. *)
-Theorem C36_stops_accepting : forall (vers : list N) (sched : list tid) (t : tid) (i : nat) (s' : sstate),
+Theorem C36_stops_accepting : forall (vers : list cspec) (sched : list tid) (t : tid) (i : nat) (s' : sstate),
   returned (final vers sched) = true ->
   exec t (Dial i) (final vers sched) = Continue s' ->
   at_phase (s_conns s') i PRefused /\ s_pending s' = s_pending (final vers sched).
 Proof. exact shutdown_refuses. Qed.
 
-Theorem C36_no_spawn_after_close : forall (vers : list N) (sched : list tid) (t : tid) (s' : sstate),
+Theorem C36_no_spawn_after_close : forall (vers : list cspec) (sched : list tid) (t : tid) (s' : sstate),
   close_called (final vers sched) = true ->
   exec t ASpawn (final vers sched) = Continue s' ->
   forall j c, nth_error (s_conns s') j = Some c -> c_phase c = PSpawned ->
@@ -59,19 +93,21 @@ Proof. exact shutdown_no_spawn. Qed.
    has spawned but that has not yet started is invisible to ClientsWg.Wait (KNOWN_FINDINGS.json:
    KF_C36_unstarted_handler; repairing it needs the Add before the `go` in every listener, i.e. a
    change of the listeners' EstablishFn contract).  Outside exactly that window it is proved. *)
-Theorem C36_waits_modulo_findings : forall (vers : list N) (sched : list tid),
+Theorem C36_waits_modulo_findings : forall (vers : list cspec) (sched : list tid),
   KF_C36_unstarted_handler vers sched = false ->
   returned (final vers sched) = true -> no_live_handler (final vers sched) = true.
 Proof. exact shutdown_waits. Qed.
 
 (* refutation: dial, accept, spawn (handler not started); Close runs to completion; then the handler
    runs ClientsWg.Add — Close has returned while a handler is alive *)
+Definition v4 : cspec := mkCS 4 false false.
+
 Definition unstarted : list tid := [1; 2; 2; 1; 1; 1; 0; 0; 0; 0; 1; 0; 0; 3]%nat.
 
 Theorem C36_waits_refuted : exists vers sched,
   returned (final vers sched) = true /\ no_live_handler (final vers sched) = false /\
   KF_C36_unstarted_handler vers sched = true.
-Proof. exists [5%N], unstarted. vm_compute. repeat split. Qed.
+Proof. exists [v5], unstarted. vm_compute. repeat split. Qed.
 
 (* the repaired defects C36-1b / C36-2: with the pre-fix code the first theorem is false *)
 Theorem C36_refuted_prefix : exists vers sched,
@@ -86,21 +122,22 @@ Definition orderly : list tid :=
   [1; 2; 2; 1; 1; 1; 3; 3; 1; 1; 1; 4; 4; 4; 4; 5; 5; 5; 5; 0; 0; 0; 0; 1; 0; 4; 5; 0]%nat.
 
 Example C36_nonvacuous :
-  let s := final [5%N; 4%N] orderly in
+  let s := final [v5; v4] orderly in
   close_called s = true /\ quiescent s = true /\ shutdown_complete s = true /\
-  KF_C36_unstarted_handler [5%N; 4%N] orderly = false /\ KF_C36_silent_connection [5%N; 4%N] orderly = false /\
+  KF_C36_unstarted_handler [v5; v4] orderly = false /\ KF_C36_silent_connection [v5; v4] orderly = false /\
   map (fun c => (c_phase c, c_connack c, c_disc c, c_closed c)) (s_conns s) =
     [(PDone, true, true, true); (PDone, true, true, true)].
 Proof. vm_compute. repeat split. Qed.
 
 (* ... and a state that is not yet quiescent: before the handlers have torn down Close is blocked *)
 Example C36_blocked_until_handlers_finish :
-  let s := final [5%N; 4%N] (firstn 26 orderly) in
+  let s := final [v5; v4] (firstn 26 orderly) in
   returned s = false /\ quiescent s = false /\ s_wg s = 1.
 Proof. vm_compute. repeat split. Qed.
 
 Print Assumptions C36_all_closed_modulo_findings.
 Print Assumptions C36_all_closed_refuted.
+Print Assumptions C36_all_closed_refuted_too_large.
 Print Assumptions C36_stops_accepting.
 Print Assumptions C36_no_spawn_after_close.
 Print Assumptions C36_waits_modulo_findings.
